@@ -29,7 +29,7 @@ class Clause(object):
 
     def __init__(self, name, check, strategy=None, rule="", examples=None,
                  shards=None, enumerate=None, exhaustive=False,
-                 max_shrink_s=None, fuzz=None, isolate=False):
+                 max_shrink_s=None, fuzz=None, isolate=False, cov=None):
         self.name = name
         self.check = check
         # isolate: every case runs in a child forked from a process that has
@@ -47,6 +47,10 @@ class Clause(object):
         # fuzz: {"target": name in vf.fuzz.TARGETS, "runs": {tier: n},
         #        "corpus": [bytes, ...], "max_len": n}  (Atheris campaign)
         self.fuzz = fuzz
+        # cov: None = default coverage-guided campaigns over the strategy in
+        # the thorough tier (vf/covfuzz.py); False = none; or
+        # {"quick": runs, "thorough": runs, "shards": n}
+        self.cov = cov
 
     def run(self, case):
         """check(case), isolated if the clause asks for it."""
